@@ -6,7 +6,7 @@ VARIABLES rng, done
 Variants == <<"find", "findrec", "hdrdir", "sub", "pkg", "missingbase", "toolchain", "toolchain", "custom">>
 Edits == <<"add_match", "add_other", "remove_match", "rename_match", "mkdir_sub", "add_in_sub", "rmdir_sub",
            "edit_script", "edit_options", "edit_subscript", "add_header", "mkdir_gen", "add_gen",
-           "edit_toolchain", "trim_toolchain", "edit_toolchain">>
+           "edit_toolchain", "trim_toolchain", "edit_toolchain", "add_extra">>
 GenInit == done = FALSE /\ rng \in { SeedOf(i, SeedBase) : i \in 1..NSeeds }
 GenNext == /\ ~done /\ done' = TRUE /\ rng' = rng
            /\ LET n == 2 + Below(Nth(rng, 1), 4) IN
